@@ -447,7 +447,9 @@ def term_as_num(t: Val, array: bool, kind=None) -> Num:
             if ln is not None:
                 length = ln
                 if t.head == 'lib:numpy.arange' and t.kw('dtype') is None:
-                    out = Num(sym.idx(), ln, kind or 'ndarray')     # arange(m)[i] == i (the forms lib_length knows start at 0 with step 1)
+                    lo_hi = arange_bounds(t)
+                    # arange(m)[i] == i, arange(lo, hi)[i] == lo + i (the forms lib_length knows have step 1)
+                    out = Num(sym.idx() + (lo_hi[0] if lo_hi is not None else sym.C(0)), ln, kind or 'ndarray')
                     out.dt = ('int',)
                     return out
         return Num(sym.A('el', ref, sym.idx()), length, kind or 'ndarray')
@@ -466,6 +468,19 @@ def _len_of(v) -> Optional[Rat]:
         if a is not None and b is not None and a == b:
             return a
     return None
+
+
+def arange_bounds(t: 'Term'):
+    """(lo, hi) of numpy.arange(lo, hi) / arange(lo, stop=hi) with scalar bounds and unit step; None for other forms"""
+    if t.head != 'lib:numpy.arange' or t.kw('step') is not None or len(t.args) > 2:
+        return None
+    lo = t.args[0] if len(t.args) >= 1 else t.kw('start')
+    hi = t.args[1] if len(t.args) == 2 else t.kw('stop')
+    if len(t.args) == 1 and t.kw('stop') is None:
+        return None
+    if not (isinstance(lo, Num) and lo.length is None and isinstance(hi, Num) and hi.length is None):
+        return None
+    return lo.r, hi.r
 
 
 def lib_length(t: 'Term') -> Optional[Rat]:
@@ -514,6 +529,9 @@ def lib_length(t: 'Term') -> Optional[Rat]:
                 return t.args[0].r
             if stop is not None and start is None and not t.args and isinstance(stop, Num) and arg('step', None) is None:
                 return stop.r
+            lo_hi = arange_bounds(t)
+            if lo_hi is not None:
+                return lo_hi[1] - lo_hi[0]
         elif h == 'apply' and len(t.args) == 2:
             f = t.args[0]
             if isinstance(f, Term) and (f.head in ('lib:scipy.interpolate.CubicSpline', 'lib:scipy.interpolate.BSpline',
